@@ -358,15 +358,20 @@ impl<'xml> DeserializeContent<'xml> for String {
     }
 }
 
+/// Parses the whole text as a decimal integer (no trailing bytes, no overflow).
+fn parse_integer<T: std::str::FromStr>(bytes: &[u8]) -> Option<T> {
+    std::str::from_utf8(bytes).ok()?.parse::<T>().ok()
+}
+
 impl<'xml> DeserializeContent<'xml> for i32 {
     fn deserialize_content(d: &mut Deserializer<'xml>) -> DeResult<Self> {
-        d.text(|t| atoi::atoi::<Self>(t.as_ref()).ok_or(DeError::InvalidContent))
+        d.text(|t| parse_integer::<Self>(t.as_ref()).ok_or(DeError::InvalidContent))
     }
 }
 
 impl<'xml> DeserializeContent<'xml> for i64 {
     fn deserialize_content(d: &mut Deserializer<'xml>) -> DeResult<Self> {
-        d.text(|t| atoi::atoi::<Self>(t.as_ref()).ok_or(DeError::InvalidContent))
+        d.text(|t| parse_integer::<Self>(t.as_ref()).ok_or(DeError::InvalidContent))
     }
 }
 
